@@ -7,9 +7,28 @@ LEVEL = "proof"
 ASSUMPTIONS = ["A-PY, A-TYPES", "A-CALLBACK: user callbacks return to their caller", "A-PROTOBUF", "<Model>.from_pb is an opaque conversion here (its value preservation is C14's subject)"]
 
 
+def model_of_message_obligations():
+    """"Carrying the model of that message's type": the state-conversion table pairs each <X>StateResponse with the model class named
+    after it (<X>State or <X>EntityState).  Ground obligations over the live table, complete enumeration."""
+    import importlib
+    from pyvc.obl import Obligation
+    MC = importlib.import_module("aioesphomeapi.model_conversions")
+    obs = []
+    for msg, model in MC.SUBSCRIBE_STATES_RESPONSE_TYPES.items():
+        base = msg.__name__.removesuffix("Response")
+        want = {base, base.removesuffix("State") + "EntityState"}
+        good = model is not None and model.__name__ in want
+        obs.append(Obligation(id=f"C17/model_conversions.SUBSCRIBE_STATES_RESPONSE_TYPES/{msg.__name__}/model-is-named-after-the-message", property="C17", kind="property",
+                              status="discharged" if good else "refuted", backend="ground-eval", goal=f"{msg.__name__} is converted to {' or '.join(sorted(want))}",
+                              function="aioesphomeapi.model_conversions.SUBSCRIBE_STATES_RESPONSE_TYPES",
+                              model=None if good else {"message": msg.__name__, "model": getattr(model, "__name__", None)}, witness=f"{msg.__name__}->{getattr(model, '__name__', None)}"))
+    return obs
+
+
 def targets(eng):
     from pyvc.engine import Engine
     out = cb.targets_for(eng, ["C17"], ["C17"])
+    out.append(ground_target("ground:state-conversion-table", model_of_message_obligations, functions=["aioesphomeapi.model_conversions.SUBSCRIBE_STATES_RESPONSE_TYPES"]))
     # the client-side methods run in their own engine instance (client model of the connection)
     from contracts import client
     e2 = Engine()
